@@ -94,6 +94,21 @@ theorem C19_uuid (b : Bytes) (h : b.length = 16) : parseUuid (formatUuid b) = so
   | [b0,b1,b2,b3,b4,b5,b6,b7,b8,b9,b10,b11,b12,b13,b14,b15], _ =>
     simp [parseUuid, formatUuid, fmtBytes, fmtByte, parseHex, parseByte_fmtByte]
 
+/-- the encoding is injective on well-formed records: two different records (any key bytes, so
+    also keys that are prefixes of one another) never share their persisted bytes -/
+theorem C19_encode_injective (r r' : Rec) (hs : r.seq < 2^64) (ht : r.tx.length = 16) (hc : r.cid.length = 16)
+    (hs' : r'.seq < 2^64) (ht' : r'.tx.length = 16) (hc' : r'.cid.length = 16)
+    (h : encode r = encode r') : r = r' := by
+  have h1 := C19_roundtrip r hs ht hc
+  rw [h, C19_roundtrip r' hs' ht' hc'] at h1
+  exact (Option.some.inj h1).symm
+
+/-- … and decoding is injective on accepted byte strings: two different stored byte strings never
+    decode to the same record (no two metadata entries collapse into one version) -/
+theorem C19_decode_injective (bs bs' : Bytes) (r : Rec) (h : decode bs = some r) (h' : decode bs' = some r) :
+    bs = bs' := by
+  rw [← C19_decode_encode bs r h, ← C19_decode_encode bs' r h']
+
 /-- non-vacuity -/
 example : decode (encode ⟨258, List.replicate 16 0, List.replicate 16 255, [107]⟩)
     = some ⟨258, List.replicate 16 0, List.replicate 16 255, [107]⟩ :=
